@@ -5,6 +5,7 @@ from .. import camp_props, common
 from ..units.penalty import Penalty
 from ..units.loop import Loop
 from ..units.tau import ComputeTau
+from ..units.autoscale import CreateScaling
 
 PROP_FILES = ["props/C06.v"]
 TECHNIQUE = "Coq proof + regenerated structural facts + correspondence"
@@ -13,7 +14,7 @@ TECHNIQUE = "Coq proof + regenerated structural facts + correspondence"
 def run(rep, tier, seed, scratch):
     g = Gen(seed)
     common.facts_obligations(rep, 'C06', scratch)
-    for u in (Penalty(), Loop(), ComputeTau()):
+    for u in (Penalty(), Loop(), ComputeTau(), CreateScaling()):
         run_unit(rep, u, u.gen(g, tier), scratch)
     camp_props.run_single(rep, 'C06', tier, seed, 60, 500)
     # single precision: every dtype-dependent path (empty blocks, fast paths) on data that is exact in binary32
